@@ -5,6 +5,7 @@ CONSTANTS Paths = {1}
           MaxActions = 3
           KeyModel = 1
           VStep = {1}
+          TimeChoices = {0, 1, 2, 3, 4}
           WithX = TRUE
           EmitOn = TRUE
           Sim = FALSE
